@@ -157,6 +157,10 @@ func vfC10LibBases() []vfBase {
 					// where a reopened session's allocator starts
 					ops = append(ops, vfOp{Op: "mkgroup", Path: "/g"}, vfOp{Op: "attr", Path: "/g", Name: "ga", Value: "i32a"},
 						vfOp{Op: "mkds", Path: "/g/z", Type: "u8", Dims: []uint64{3}}, vfOp{Op: "write", Path: "/g/z", Pat: 4},
+						// namesakes of the session's target at deeper levels (same leaf name, same type
+						// and shape, other content), in a group that sorts before and one that sorts after
+						vfOp{Op: "mkds", Path: "/g/x", Type: "f64", Dims: []uint64{4}}, vfOp{Op: "write", Path: "/g/x", Pat: 3},
+						vfOp{Op: "mkgroup", Path: "/zz"}, vfOp{Op: "mkds", Path: "/zz/x", Type: "f64", Dims: []uint64{4}}, vfOp{Op: "write", Path: "/zz/x", Pat: 4},
 						vfOp{Op: "mkds", Path: "/y", Type: "i32", Dims: []uint64{2, 3}}, vfOp{Op: "write", Path: "/y", Pat: 2},
 						vfOp{Op: "attr", Path: "/y", Name: "unit", Value: "s40"})
 					for _, o := range ops {
